@@ -277,11 +277,17 @@ func (g *gen) lifecycle() {
 				}
 				continue
 			}
-		} else if p.Type == tTSS {
+		}
+		// UpgradeClient of a TSS client (key rotation) and ToggleClient to TSS store a TSS consensus state at 0-0
+		if newTyp == tTSS && listed(keyTSSZeroHeight) {
+			g.r.Exclude(keyTSSZeroHeight)
 			continue
 		}
 		np := g.drawPlan(p.Name, newTyp)
 		np.UpdRevs, np.Extra = nil, nil
+		if newTyp == tTSS {
+			np.Vals = p.Vals + 1 // rotated key
+		}
 		if p.Type == tETH && newTyp == tETH {
 			for clash(*p, clienttypes.NewHeight(np.Rev, np.H0)) {
 				np.H0++
